@@ -19,7 +19,10 @@ LEVEL = "exploration"
 GF_T = [[0.0, 2.0], [1.0, 3.0], [2.0, 1.0], [3.0, -1.0], [5.0, 4.0]]
 GF_S = [[2.0, 0.0], [5.0, 2.0], [8.0, 1.0], [11.0, 5.0]]       # evenly spaced from a minimum that is not 0: written as <xscale min max>
 
-SHAPES = ["const", "prop", "goal", "time_fall", "time_rise", "gf_time", "gf_stock", "aux_chain"]
+# 60 unevenly spaced points (size ladder for the graphical functions)
+GF_LONG = [[round(i * 0.25 + (i % 3) * 0.05, 6), round(((i * 5) % 9) * 0.5 - 1.0 + (i % 2) * 0.3, 6)] for i in range(60)]
+
+SHAPES = ["const", "prop", "goal", "time_fall", "time_rise", "gf_time", "gf_stock", "aux_chain", "gf_time_long"]
 
 
 def flow_eq(shape, stock, auxes, tag):
@@ -38,6 +41,10 @@ def flow_eq(shape, stock, auxes, tag):
         n = "gt" + tag
         auxes[n] = {"eq": ["time"], "gf": GF_T}
         return ["ref", n]
+    if shape == "gf_time_long":
+        n = "gl" + tag
+        auxes[n] = {"eq": ["time"], "gf": GF_LONG}
+        return ["bin", "*", ["ref", n], ["num", 0.5]]
     if shape == "gf_stock":
         n = "gs" + tag
         auxes[n] = {"eq": S, "gf": GF_S}
@@ -133,7 +140,8 @@ def to_stmx(g, start, stop, dt, reciprocal):
                 # evenly spaced x values: the other documented way of writing them
                 v["gf"] = {"xmin": xs[0], "xmax": xs[-1], "ypts": [p[1] for p in a["gf"]]}
             else:
-                v["gf"] = {"xpts": xs, "ypts": [p[1] for p in a["gf"]]}
+                # unevenly spaced: the x values are listed; (Stella style) the display range is given as <xscale> next to them
+                v["gf"] = {"xpts": xs, "xmin": xs[0], "xmax": xs[-1], "ypts": [p[1] for p in a["gf"]]}
         vs.append(v)
     return xmile.document(vs, start, stop, dt, reciprocal)
 
